@@ -307,6 +307,8 @@ type Case struct {
 	Sign bool `json:"sign,omitempty"`
 	// Code: "" keep | strip (source without code) | set (code C16-0001)
 	Code string `json:"code,omitempty"`
+	// SrcDates: the source is given a value_date and an op_date (= its issue date)
+	SrcDates bool `json:"src_dates,omitempty"`
 	// Edits applied to the result before the source is compared again (lib
 	// entry): recalc, stamp, sign, append, scribble
 	Edits []string `json:"edits,omitempty"`
@@ -393,13 +395,13 @@ func buildSource(c Case) (*gobl.Envelope, string) {
 		return nil, "unknown-path"
 	}
 	var env *gobl.Envelope
-	switch c.Code {
-	case "":
+	switch {
+	case c.Code == "" && !c.SrcDates:
 		var err error
 		if env, err = corpus.EnvelopeOf(di.doc.JSON, di.doc.IsEnv); err != nil {
 			return nil, "source-does-not-calculate"
 		}
-	case "strip", "set":
+	case c.Code == "" || c.Code == "strip" || c.Code == "set":
 		v, err := jsontree.Decode(di.doc.JSON)
 		if err != nil {
 			return nil, "source-unreadable"
@@ -412,14 +414,26 @@ func buildSource(c Case) (*gobl.Envelope, string) {
 		if doc == nil {
 			return nil, "source-unreadable"
 		}
-		cands := []string{""}
-		if c.Code == "set" {
+		if c.SrcDates {
+			d, ok := doc["issue_date"].(string)
+			if !ok {
+				return nil, "source-without-issue-date"
+			}
+			doc["value_date"], doc["op_date"] = d, d
+		}
+		cands := []string{"keep"}
+		switch c.Code {
+		case "strip":
+			cands = []string{""}
+		case "set":
 			cands = setCodes // the first one the regime / addons accept
 		}
 		for _, code := range cands {
-			if code == "" {
+			switch code {
+			case "keep":
+			case "":
 				delete(doc, "code")
-			} else {
+			default:
 				doc["code"] = code
 			}
 			e, err := corpus.EnvelopeOf(jsontree.Encode(root), di.doc.IsEnv)
@@ -1303,7 +1317,7 @@ func judge(c Case, o *vh.Obs) {
 		if c.Op == "correct" && !isDefault(c, def) {
 			o.NonTrivial()
 		}
-		if c.Op == "replicate" && (len(src.Signatures) > 0 || len(src.Head.Stamps) > 0) {
+		if c.Op == "replicate" && (len(src.Signatures) > 0 || len(src.Head.Stamps) > 0 || c.SrcDates) {
 			o.NonTrivial()
 		}
 	} else {
@@ -1314,6 +1328,9 @@ func judge(c Case, o *vh.Obs) {
 	}
 	if len(src.Head.Stamps) > 0 {
 		o.Class("source-stamped")
+	}
+	if c.SrcDates {
+		o.Class("source-with-value-and-op-date")
 	}
 
 	before, err := takeSnapshot(src)
@@ -1975,14 +1992,15 @@ func enumSweep(yield func(Case) bool) {
 			for si, sv := range []struct {
 				sign   bool
 				stamps []string
-			}{{false, nil}, {true, nil}, {true, append(dedup(d.def.Stamps), otherStamp)}} {
+				dates  bool
+			}{{false, nil, false}, {true, nil, true}, {true, append(dedup(d.def.Stamps), otherStamp), false}} {
 				if e == "cli-doc" && si > 0 {
 					continue
 				}
 				if !vh.Thorough() && e != "lib" && si != (di%3) {
 					continue
 				}
-				c := Case{Path: d.doc.Path, Op: "replicate", Entry: e, Sign: sv.sign, HeadStamps: sv.stamps}
+				c := Case{Path: d.doc.Path, Op: "replicate", Entry: e, Sign: sv.sign, HeadStamps: sv.stamps, SrcDates: sv.dates}
 				if d.code == "" && sv.sign {
 					c.Code = "set"
 				}
@@ -2004,9 +2022,9 @@ func enumSweep(yield func(Case) bool) {
 // enumExec: the same vectors through the gobl executable (sampled).
 func enumExec(yield func(Case) bool) {
 	cfg := vh.Cfg()
-	budget := 12
+	budget := 20 // per shard
 	if vh.Thorough() {
-		budget = 60
+		budget = 300
 	}
 	var pool []Case
 	for di, d := range loadCorpus() {
@@ -2022,7 +2040,7 @@ func enumExec(yield func(Case) bool) {
 				pool = append(pool, c)
 			}
 		}
-		pool = append(pool, Case{Path: d.doc.Path, Op: "replicate", Entry: "exec", Sign: di%2 == 0})
+		pool = append(pool, Case{Path: d.doc.Path, Op: "replicate", Entry: "exec", Sign: di%2 == 0 && d.code != "", SrcDates: di%3 == 0})
 	}
 	// a seed-rotated, evenly spread sample; every shard takes its own slice
 	total := budget * cfg.Shards
@@ -2107,6 +2125,7 @@ func genCase(t *rapid.T) Case {
 			c.Edits = append(c.Edits, "scribble")
 		}
 	}
+	c.SrcDates = rapid.IntRange(0, 3).Draw(t, "src_dates") == 0
 	if c.Op == "replicate" {
 		c.Opts.Stamps = nil
 		return c
@@ -2163,14 +2182,14 @@ func genCase(t *rapid.T) Case {
 
 func init() {
 	vh.Describe(
-		"Cases = (corpus invoice, option vector, entry point). Source: every example invoice of the repository (73, all regimes and addons), calculated, validated, optionally signed with a generated key and stamped in the header with each provider the published definition requires (present / absent / an unrelated one), optionally with its code removed. "+
+		"Cases = (corpus invoice, option vector, entry point). Source: every example invoice of the repository (73, all regimes and addons), calculated, validated, optionally signed with a generated key and stamped in the header with each provider the published definition requires (present / absent / an unrelated one), optionally with its code removed (or, for the examples without one, a code added), optionally with value_date / op_date. "+
 			"Option vector: type in every published invoice type + {absent, an undefined key}; reason absent/set; ext: each offered key with its first/last published code and an unpublished code, all offered keys, a published key the definition does not offer, an undefined key; required stamps in the header / missing one by one / all missing / handed over in the options; series; issue date; copy_tax; passed as functional options, bill.WithOptions(struct), bill.WithData(JSON) and CLI flags. "+
 			"Entry points: Envelope.Correct / Replicate, in-process internal/cli Correct / Replicate (envelope and bare-document input), cli.Bulk correct / replicate requests, and the gobl executable (sampled). "+
 			"Oracle: (1) json.Marshal(source) and a reflection dump of everything reachable from the source (unexported fields, signatures) are identical before the call, after it, and after the result was recalculated, stamped (AddStamp overwrites in place), signed, had rows appended and had every reachable scalar, map entry and slice element overwritten in place (undone afterwards). "+
 			"(2) refusal model from data/regimes + data/addons `corrections` (types/extensions/stamps concatenated regime then addons, reason_required OR-ed): refused iff type missing, source without code, a required stamp missing, types defined and the type not among them, reason required and empty, or the edited source does not calculate; CLI/bulk/exec additionally iff the expected result does not validate. The code must refuse exactly then. "+
 			"(3) on success: new head.uuid, no sigs, no header stamps, digest matches the document, doc.code absent, new doc.uuid, doc.type = requested, exactly one preceding = {uuid,type,series,code,issue_date of the source, reason, ext as requested, the required stamps, tax iff copy_tax}, issue_date = requested or today (window sampled once at start-up), and the whole document equals the source JSON edited accordingly and calculated independently. "+
 			"(4) replica: no code, value_date, op_date; new uuids; no sigs/stamps; issue_date today; rest equals the recalculated source. "+
-			"Non-trivial: the regime/addons publish a correction definition and the option vector is not the all-valid default (first allowed type, a reason, nothing else, all required stamps in the header); replicas: the source is signed or stamped.",
+			"Non-trivial: the regime/addons publish a correction definition and the option vector is not the all-valid default (first allowed type, a reason, nothing else, all required stamps in the header); replicas: the source is signed or stamped or carries a value_date / op_date.",
 		"data/regimes/*.json and data/addons/*.json in the tree under test are the referee for what a regime requires; the Go tables are only observed",
 		"extension keys a definition does not offer are not refused by Correct (CorrectionDefinition.Extensions: 'keys that can be included'; nothing in the code or its tests rejects others): the ext must be carried as requested, and only the validating command line paths refuse undefined keys / unpublished codes",
 		"a document without any published correction definition (no regime) accepts any non-empty type in the library (no table to check against); only the validating paths refuse undefined types",
